@@ -67,7 +67,17 @@ theorem step_spc {cfg : Cfg} {s s' : State} (a : Action) (h : step cfg s a = som
     split at h
     · exact Or.inl (spc_updConn h)
     · exact Or.inl (spc_updConn h)
-  | fin c i => exact Or.inl (spc_updConn h)
+  | fin c i =>
+    simp only [step] at h
+    split at h
+    · contradiction
+    · exact Or.inl (spc_updConn h)
+  | finEarly c i =>
+    simp only [step] at h
+    split at h
+    · exact Or.inl (spc_updConn h)
+    · contradiction
+  | lateWrite c i => exact Or.inl (spc_updConn h)
   | write c i => exact Or.inl (spc_updConn h)
   | skip c i => exact Or.inl (spc_updConn h)
   | dec c i => exact Or.inl (spc_updConn h)
